@@ -36,6 +36,7 @@ def gen_knobs(r):
     return {"set_key": "%08x" % r.getrandbits(32), "rand_seed": r.getrandbits(32), "urandom_key": r.getrandbits(32),
             "clock": 1_500_000_000 + r.getrandbits(28), "pid": r.randint(2, 60000),
             "host": r.choice(["rtr-lab-1", "build42", "localhost", "anon-box"]), "sched_key": "%08x" % r.getrandbits(32),
+            "cwd": r.choice(["/home/alice/configs", "/srv/netconan/work", "/", "/tmp/x y"]),
             "environ": {"TZ": r.choice(["UTC", "Asia/Tokyo", "America/Lima"]), "LANG": r.choice(["C", "en_US.UTF-8", "de_DE.UTF-8"]),
                         "USER": r.choice(["root", "alice", "svc-netconan"]), "COLUMNS": str(r.choice([80, 132, 200]))},
             "listing_key": None if r.random() < 0.15 else "%08x" % r.getrandbits(32),
@@ -172,6 +173,9 @@ def make_ctx(r, o, nwords=None):
 
 def add_words(r, o, n=None, forbidden=""):
     o["words"] = G.gen_words(r, n or r.randint(1, 4), G.VOCAB_TEXT + "\n" + forbidden)
+    if o["words"] and r.random() < 0.1:
+        w = r.choice(o["words"])
+        o["words"].append(w.swapcase() if w.swapcase().lower() == w.lower() else w)      # the same word listed twice
     return o["words"]
 
 
@@ -356,6 +360,9 @@ def gen_lines(r, ctx, secrets, o, n, eol_variety=True):
     return lines
 
 
+MANY_NAMES = ["rtr%02d.cfg" % i for i in range(60)]
+
+
 def gen_tree(r, nfiles, hidden=True, dirs=True):
     """-> (list of input relpaths under in/, list of extra empty dirs, list of hidden relpaths)"""
     dpool = [""]
@@ -367,12 +374,16 @@ def gen_tree(r, nfiles, hidden=True, dirs=True):
             d = posixpath.join(parent, r.choice(DIR_NAMES)) if parent else r.choice(DIR_NAMES)
             if d not in dpool:
                 dpool.append(d)
+    if dirs and r.random() < 0.06:
+        # a sub-directory chain that spells the (absolute) input path once more
+        dpool.append(posixpath.join(r.choice(dpool), "simfs", "in").lstrip("/"))
     paths = []
     guard = 0
     while len(paths) < nfiles and guard < 100:
         guard += 1
         d = r.choice(dpool)
-        p = posixpath.join("in", d, r.choice(FILE_NAMES)) if d else posixpath.join("in", r.choice(FILE_NAMES))
+        names = FILE_NAMES if nfiles <= len(FILE_NAMES) else MANY_NAMES
+        p = posixpath.join("in", d, r.choice(names)) if d else posixpath.join("in", r.choice(names))
         if p not in paths and not any(p.startswith(q + "/") or q.startswith(p + "/") for q in paths) \
                 and not any(posixpath.join("in", x) == p for x in dpool if x):
             paths.append(p)
